@@ -28,7 +28,7 @@ D2 == IF ~Depth2 THEN {} ELSE
       \cup {[k |-> "ptr", e |-> t] : t \in D1in}
       \cup {[k |-> "struct", fields |-> <<a, b>>] : a \in D1in, b \in D0in}
 
-Cases == {[t |-> t, vc |-> vc] : t \in D0 \cup D1 \cup D2, vc \in {"empty", "one", "many", "long", "nil"}}
+Cases == {[t |-> t, vc |-> vc] : t \in D0 \cup D1 \cup D2, vc \in {"empty", "one", "many", "long", "nil", "eight", "sixtyfour"}}
 
 Init == cs = [t |-> Leaf("none"), vc |-> ""]
 Next == cs.vc = "" /\ cs' \in {c \in Cases : c.vc \in VClassesFor(c.t)}
